@@ -312,6 +312,15 @@ def run_check(prop, module, tier, seed):
             aud = audit(module.LEAN_TARGETS)
             for pr in aud["problems"]:
                 ctx.broken.append("audit: " + pr)
+            if tier == "thorough":
+                # independent re-check of the compiled theorems by the toolchain's external checker
+                t1 = time.time()
+                mods = [t for t in module.LEAN_TARGETS if t.startswith("SkaModel.")]
+                lc = subprocess.run(["lake", "env", "leanchecker"] + mods, cwd=LEAN, stdout=subprocess.PIPE,
+                                    stderr=subprocess.STDOUT, text=True)
+                ctx.notes["leanchecker"] = dict(modules=mods, returncode=lc.returncode, seconds=round(time.time() - t1, 1))
+                if lc.returncode != 0:
+                    ctx.broken.append("leanchecker rejected the compiled modules: " + lc.stdout[-400:])
         if os.path.exists(DRIVER):
             module.correspond(ctx)
         else:
